@@ -1155,30 +1155,99 @@ class SymSeq:
             return SymSeq(self.kind, [self.items[0]] + rest.items)
         return self._pad(width, "0" if self.kind == "str" else b"0", True)
 
+    def _blank_cond(self, u, chars):
+        """SymBool|bool|None: unit u is one of the characters to strip (None: cannot tell)"""
+        if chars is None:
+            if isinstance(u, Hx):
+                return False
+            if isinstance(u, int):
+                return (chr(u).isspace() if self.kind == "str" else chr(u) in " \t\n\r\x0b\x0c") if u < 128 else None
+            t = u.t
+            if self.kind == "bytes":
+                return mk_bool(z3.Or(t == 32, z3.And(z3.UGE(t, 9), z3.ULE(t, 13))))
+            if not u.ascii:
+                return None
+            return mk_bool(z3.Or(t == 32, z3.And(z3.UGE(t, 9), z3.ULE(t, 13)), z3.And(z3.UGE(t, 28), z3.ULE(t, 31))))
+        cs = SymSeq.of(chars) if not isinstance(chars, SymSeq) else chars
+        if not cs.is_concrete():
+            raise Unsupported("strip with symbolic character set")
+        return b_or(*[unit_eq(u, c) for c in cs.items])
+
+    def _strip(self, chars, left, right):
+        if self.is_concrete():
+            c = self.concrete()
+            cc = chars.concrete() if isinstance(chars, SymSeq) else chars
+            return SymSeq.of(c.strip(cc) if (left and right) else (c.lstrip(cc) if left else c.rstrip(cc)))
+        if self.has_blob() or self.stripnul:
+            raise Unsupported("strip on blob / stripped field")
+        items = list(self.items)
+        if len(items) > 16:
+            raise Unsupported("strip on long symbolic text")
+        a, b = 0, len(items)
+        if left:
+            while a < b:
+                c = self._blank_cond(items[a], chars)
+                if c is None:
+                    raise Unsupported("strip on non-ascii text")
+                if not bool(c):
+                    break
+                a += 1
+        if right:
+            while b > a:
+                c = self._blank_cond(items[b - 1], chars)
+                if c is None:
+                    raise Unsupported("strip on non-ascii text")
+                if not bool(c):
+                    break
+                b -= 1
+        return SymSeq(self.kind, items[a:b])
+
     def m_rstrip(self, chars=None):
         if self.has_blob():
             raise Unsupported("rstrip with blob")
-        if chars is None:
-            raise Unsupported("rstrip() of whitespace on symbolic text")
-        c = SymSeq.of(chars) if not isinstance(chars, SymSeq) else chars
-        if c.items != [0]:
-            if self.is_concrete():
-                return SymSeq.of(self.concrete().rstrip(c.concrete()))
-            raise Unsupported("rstrip(%r) on symbolic text" % (chars,))
-        if self.stripnul:
-            return self
-        # resolve statically when the tail is concrete non-NUL
-        items = list(self.items)
-        while items and isinstance(items[-1], int) and items[-1] == 0:
-            items.pop()
-        if not items or isinstance(items[-1], (int, Hx)):
-            return SymSeq(self.kind, items)
-        return SymSeq(self.kind, items, stripnul=True)
+        c = None
+        if chars is not None:
+            c = SymSeq.of(chars) if not isinstance(chars, SymSeq) else chars
+        if c is not None and c.items == [0] and (self.kind == "str" or len(self.items) > 16):
+            # NUL-padded fixed-width field: keep the rstrip pending (compared zero-padded, see eq)
+            if self.stripnul:
+                return self
+            items = list(self.items)
+            while items and isinstance(items[-1], int) and items[-1] == 0:
+                items.pop()
+            if not items or isinstance(items[-1], (int, Hx)):
+                return SymSeq(self.kind, items)
+            return SymSeq(self.kind, items, stripnul=True)
+        return self._strip(chars, False, True)
+
+    def m_lstrip(self, chars=None):
+        return self._strip(chars, True, False)
 
     def m_strip(self, chars=None):
-        if self.is_concrete():
-            return SymSeq.of(self.concrete().strip(chars))
-        raise Unsupported("strip on symbolic text")
+        return self._strip(chars, True, True)
+
+    def m_find(self, sub, start=0, end=None):
+        self._need_plain("find")
+        if self.kind == "str" and not self.all_ascii():
+            raise Unsupported("find on non-ascii text")
+        s = self._coerce(sub) if not isinstance(sub, int) else SymSeq("bytes", [sub])
+        s._need_plain("find")
+        n, m = len(self.items), len(s.items)
+        if isinstance(start, SymInt) or isinstance(end, SymInt):
+            raise Unsupported("find with symbolic bounds")
+        stop = n if end is None else min(end, n)
+        if start < 0 or (end is not None and end < 0):
+            raise Unsupported("find with negative bounds")
+        for p in range(start, stop - m + 1):
+            if bool(b_and(*[unit_eq(self.items[p + k], s.items[k]) for k in range(m)])):
+                return p
+        return -1
+
+    def m_index(self, sub, start=0, end=None):
+        r = self.m_find(sub, start, end)
+        if r < 0:
+            raise ValueError("subsection not found")
+        return r
 
     def m_split(self, sep=None, maxsplit=-1):
         self._need_plain("split")
